@@ -96,6 +96,7 @@ class Python2VerilogTranspiler:
         node = wiresAndVars.visit(node)
         node = ReplaceConstant().visit(node)
         node = ReplaceAssign().visit(node)
+        node = ReplaceIfExp().visit(node)
  
         node.wires.variables = wiresAndVars.variables.values();
         # node = FlattenOperators().visit(node)
@@ -354,14 +355,10 @@ class ReplaceIf(ast.NodeTransformer):
         return transformed_node
     
     def visit_IfExp(self, node):
-        if (self.inCall):
-            raise TranspilationException('Ternary "if" inside a call not supported')
-            
-        """Transforms Python ternary if-expressions into VerilogIf"""
-        condition = self.visit(node.test)
-        positive = [self.visit(node.body)]  # Wrap in list to match VerilogIf structure
-        negative = [self.visit(node.orelse)]
-        return VerilogIf(condition, positive, negative)
+        # a ternary is an EXPRESSION: it is left in place (children visited) for ReplaceIfExp,
+        # which turns it into the Verilog conditional operator; a VerilogIf here would be
+        # emitted as statement text in the middle of an expression
+        return self.generic_visit(node)
 
 class ReplaceMatch(ast.NodeTransformer):
     """Transforms Python match/case into VerilogCase."""
@@ -551,9 +548,9 @@ class ReplaceExpr(ast.NodeTransformer):
 
 class ReplaceIfExp(ast.NodeTransformer):
     def visit_IfExp(self, node):
-        cond = ast.NodeTransformer.generic_visit(self, node.test)
-        positive = ast.NodeTransformer.generic_visit(self, node.body)
-        negative = ast.NodeTransformer.generic_visit(self, node.orelse)
+        cond = self.visit(node.test)
+        positive = self.visit(node.body)
+        negative = self.visit(node.orelse)
         return VerilogTernaryConditionalOperator(cond, positive, negative)
         
 
@@ -1148,7 +1145,7 @@ class VerilogTernaryConditionalOperator(ast.AST):
         self._fields = tuple(['condition', 'positive', 'negative'])
 
     def toVerilog(self):
-        return '({}) ? {} : {}'.format(Python2VerilogTranspiler.toVerilog(self.condition),
+        return '(({}) ? {} : {})'.format(Python2VerilogTranspiler.toVerilog(self.condition),
             Python2VerilogTranspiler.toVerilog(self.positive),
             Python2VerilogTranspiler.toVerilog(self.negative))
 
